@@ -169,6 +169,10 @@ def replay(prop, path):
             print("VIOLATION property=%s replay=%s" % (prop, path))
             return 1
         return 0
+    if doc["violation"]["invariant"] == "BatchConforms":
+        # an operation sequence on the v2 batch: replay it on the real type, compare with the stored expectation
+        from checks import batch_model
+        return batch_model.replay(prop, doc, path)
     viols, _ = vlib.validate_traces("DataPathTrace", vlib.spec_files("datapath"), [doc["trace"]], name="replay0")
     stored = [v for v in viols if v["inv"] == doc["violation"]["invariant"]]
     print("stored trace: %d violation record(s) of %s" % (len(stored), doc["violation"]["invariant"]))
